@@ -1,3 +1,967 @@
 package main
 
-func (e *Engine) runLua(prop string) ([]*Obligation, []string) { return nil, nil }
+// gzv lua: symbolic execution of the Redis Lua scripts of /repo (real files, parsed on every run) against an abstract
+// Redis state with trusted command contracts. Subset: local/assignment, if/elseif/else, return, arithmetic, comparison,
+// and/or/not, tonumber, math.max/min/floor, redis.call with GET, SET [NX] [PX ms], SETEX, INCRBY, EXPIRE, DEL, KEYS[i], ARGV[i].
+// Anything else fails closed with subset/<script>.
+//
+// Abstract state per KEYS[i]:  has_i (key present and unexpired), num_i (numeric reading), str_i (string identity), ttl_i (ms; 0 = none).
+// ARGV[i] has a string identity argS_i and a numeric reading argN_i (tonumber).
+
+import (
+	"fmt"
+	"go/ast"
+	"go/parser"
+	"go/token"
+	"os"
+	"path/filepath"
+	"sort"
+	"strconv"
+	"strings"
+)
+
+// ---- contracts ----
+
+type LuaContract struct {
+	File     string // script path relative to the contract file's directory
+	Path     string // absolute
+	Name     string // display name
+	Props    []string
+	Lets     []GhostAssign
+	Requires []Clause
+	Ensures  []Clause
+	NKeys    int
+	NArgs    int
+	IntArgs  map[int]bool
+	Src      string
+	Line     int
+}
+
+// parseLuaBlocks extracts "//@ lua <file>" blocks from a contract file (called from ParseFile for unknown keyword handling).
+func (cs *ContractSet) parseLuaLine(cur **LuaContract, kw, rest, path string, line int) bool {
+	switch kw {
+	case "lua":
+		lc := &LuaContract{File: rest, Path: filepath.Join(filepath.Dir(path), rest), Src: path, Line: line, IntArgs: map[int]bool{}}
+		lc.Name = rest
+		cs.Lua = append(cs.Lua, lc)
+		*cur = lc
+		return true
+	}
+	if *cur == nil {
+		return false
+	}
+	lc := *cur
+	switch kw {
+	case "property":
+		lc.Props = append(lc.Props, strings.Fields(rest)...)
+	case "keys":
+		lc.NKeys, _ = strconv.Atoi(rest)
+	case "args":
+		lc.NArgs, _ = strconv.Atoi(rest)
+	case "intargs":
+		for _, f := range strings.Fields(strings.ReplaceAll(rest, ",", " ")) {
+			n, _ := strconv.Atoi(f)
+			lc.IntArgs[n] = true
+		}
+	case "let":
+		ga, err := parseGhostAssign(rest, path, line)
+		if err != nil {
+			cs.Errors = append(cs.Errors, err.Error())
+		} else {
+			lc.Lets = append(lc.Lets, ga)
+		}
+	case "requires":
+		lc.Requires = append(lc.Requires, cs.clause(rest, path, line))
+	case "ensures":
+		lc.Ensures = append(lc.Ensures, cs.clause(rest, path, line))
+	default:
+		return false
+	}
+	return true
+}
+
+// ---- Lua subset parser ----
+
+type luaTok struct {
+	kind string // name num str op eof
+	val  string
+}
+
+func luaLex(src string) ([]luaTok, error) {
+	var toks []luaTok
+	i := 0
+	for i < len(src) {
+		c := src[i]
+		switch {
+		case c == ' ' || c == '\t' || c == '\n' || c == '\r':
+			i++
+		case c == '-' && i+1 < len(src) && src[i+1] == '-':
+			for i < len(src) && src[i] != '\n' {
+				i++
+			}
+		case c >= '0' && c <= '9':
+			j := i
+			for j < len(src) && (src[j] >= '0' && src[j] <= '9' || src[j] == '.') {
+				j++
+			}
+			toks = append(toks, luaTok{"num", src[i:j]})
+			i = j
+		case c == '"' || c == '\'':
+			j := i + 1
+			for j < len(src) && src[j] != c {
+				j++
+			}
+			if j >= len(src) {
+				return nil, fmt.Errorf("unterminated string")
+			}
+			toks = append(toks, luaTok{"str", src[i+1 : j]})
+			i = j + 1
+		case c == '_' || c >= 'a' && c <= 'z' || c >= 'A' && c <= 'Z':
+			j := i
+			for j < len(src) && (src[j] == '_' || src[j] >= 'a' && src[j] <= 'z' || src[j] >= 'A' && src[j] <= 'Z' || src[j] >= '0' && src[j] <= '9') {
+				j++
+			}
+			toks = append(toks, luaTok{"name", src[i:j]})
+			i = j
+		default:
+			for _, op := range []string{"==", "~=", "<=", ">=", "..", "(", ")", "[", "]", "+", "-", "*", "/", "<", ">", "=", ",", ".", "%"} {
+				if strings.HasPrefix(src[i:], op) {
+					toks = append(toks, luaTok{"op", op})
+					i += len(op)
+					goto next
+				}
+			}
+			return nil, fmt.Errorf("unexpected character %q", c)
+		next:
+		}
+	}
+	toks = append(toks, luaTok{"eof", ""})
+	return toks, nil
+}
+
+type luaExpr struct {
+	op   string // num str name nil true false index call bin un
+	val  string
+	args []*luaExpr
+}
+
+type luaStmt struct {
+	kind  string // local assign if return call
+	name  string
+	expr  *luaExpr
+	conds []*luaExpr
+	blks  [][]*luaStmt
+	els   []*luaStmt
+}
+
+type luaParser struct {
+	toks []luaTok
+	pos  int
+	err  error
+}
+
+func (p *luaParser) peek() luaTok { return p.toks[p.pos] }
+func (p *luaParser) next() luaTok {
+	t := p.toks[p.pos]
+	if p.pos < len(p.toks)-1 {
+		p.pos++
+	}
+	return t
+}
+func (p *luaParser) isName(n string) bool { t := p.peek(); return t.kind == "name" && t.val == n }
+func (p *luaParser) isOp(o string) bool   { t := p.peek(); return t.kind == "op" && t.val == o }
+func (p *luaParser) expectOp(o string) {
+	if !p.isOp(o) {
+		p.fail("expected %q, found %q", o, p.peek().val)
+	}
+	p.next()
+}
+func (p *luaParser) expectName(n string) {
+	if !p.isName(n) {
+		p.fail("expected %q, found %q", n, p.peek().val)
+	}
+	p.next()
+}
+func (p *luaParser) fail(f string, a ...any) {
+	if p.err == nil {
+		p.err = fmt.Errorf(f, a...)
+	}
+	p.pos = len(p.toks) - 1
+}
+
+func (p *luaParser) block(terms ...string) []*luaStmt {
+	var out []*luaStmt
+	for p.err == nil {
+		t := p.peek()
+		if t.kind == "eof" {
+			return out
+		}
+		for _, tm := range terms {
+			if t.kind == "name" && t.val == tm {
+				return out
+			}
+		}
+		out = append(out, p.stmt())
+	}
+	return out
+}
+
+func (p *luaParser) stmt() *luaStmt {
+	t := p.peek()
+	if t.kind != "name" {
+		p.fail("unexpected token %q", t.val)
+		return &luaStmt{}
+	}
+	switch t.val {
+	case "local":
+		p.next()
+		n := p.next()
+		if n.kind != "name" {
+			p.fail("local needs a name")
+		}
+		if p.isOp("=") {
+			p.next()
+			return &luaStmt{kind: "local", name: n.val, expr: p.expr(0)}
+		}
+		return &luaStmt{kind: "local", name: n.val, expr: &luaExpr{op: "nil"}}
+	case "return":
+		p.next()
+		if p.peek().kind == "eof" || p.isName("end") || p.isName("else") || p.isName("elseif") {
+			return &luaStmt{kind: "return", expr: &luaExpr{op: "nil"}}
+		}
+		return &luaStmt{kind: "return", expr: p.expr(0)}
+	case "if":
+		p.next()
+		s := &luaStmt{kind: "if"}
+		s.conds = append(s.conds, p.expr(0))
+		p.expectName("then")
+		s.blks = append(s.blks, p.block("elseif", "else", "end"))
+		for p.isName("elseif") {
+			p.next()
+			s.conds = append(s.conds, p.expr(0))
+			p.expectName("then")
+			s.blks = append(s.blks, p.block("elseif", "else", "end"))
+		}
+		if p.isName("else") {
+			p.next()
+			s.els = p.block("end")
+		}
+		p.expectName("end")
+		return s
+	case "for", "while", "repeat", "function", "goto", "do":
+		p.fail("statement %q is outside the verified Lua subset", t.val)
+		return &luaStmt{}
+	}
+	// assignment or call statement
+	e := p.expr(0)
+	if p.isOp("=") {
+		p.next()
+		if e.op != "name" {
+			p.fail("only plain variables can be assigned")
+		}
+		return &luaStmt{kind: "assign", name: e.val, expr: p.expr(0)}
+	}
+	if e.op != "call" {
+		p.fail("expression statement must be a call")
+	}
+	return &luaStmt{kind: "call", expr: e}
+}
+
+var luaPrec = map[string]int{"or": 1, "and": 2, "<": 3, ">": 3, "<=": 3, ">=": 3, "==": 3, "~=": 3, "+": 5, "-": 5, "*": 6, "/": 6}
+
+func (p *luaParser) expr(min int) *luaExpr {
+	lhs := p.unary()
+	for p.err == nil {
+		t := p.peek()
+		op := t.val
+		pr, ok := luaPrec[op]
+		if !ok || (t.kind != "op" && t.kind != "name") || pr < min {
+			return lhs
+		}
+		p.next()
+		rhs := p.expr(pr + 1)
+		lhs = &luaExpr{op: "bin", val: op, args: []*luaExpr{lhs, rhs}}
+	}
+	return lhs
+}
+
+func (p *luaParser) unary() *luaExpr {
+	if p.isName("not") {
+		p.next()
+		return &luaExpr{op: "un", val: "not", args: []*luaExpr{p.unary()}}
+	}
+	if p.isOp("-") {
+		p.next()
+		return &luaExpr{op: "un", val: "-", args: []*luaExpr{p.unary()}}
+	}
+	return p.postfix()
+}
+
+func (p *luaParser) postfix() *luaExpr {
+	t := p.next()
+	var e *luaExpr
+	switch t.kind {
+	case "num":
+		e = &luaExpr{op: "num", val: t.val}
+	case "str":
+		e = &luaExpr{op: "str", val: t.val}
+	case "name":
+		switch t.val {
+		case "nil", "true", "false":
+			e = &luaExpr{op: t.val}
+		default:
+			e = &luaExpr{op: "name", val: t.val}
+		}
+	case "op":
+		if t.val == "(" {
+			e = p.expr(0)
+			p.expectOp(")")
+		} else {
+			p.fail("unexpected %q", t.val)
+			return &luaExpr{op: "nil"}
+		}
+	default:
+		p.fail("unexpected end of script")
+		return &luaExpr{op: "nil"}
+	}
+	for p.err == nil {
+		switch {
+		case p.isOp("."):
+			p.next()
+			n := p.next()
+			e = &luaExpr{op: "name", val: e.val + "." + n.val}
+		case p.isOp("["):
+			p.next()
+			ix := p.expr(0)
+			p.expectOp("]")
+			e = &luaExpr{op: "index", val: e.val, args: []*luaExpr{ix}}
+		case p.isOp("("):
+			p.next()
+			c := &luaExpr{op: "call", val: e.val}
+			for !p.isOp(")") && p.err == nil {
+				c.args = append(c.args, p.expr(0))
+				if p.isOp(",") {
+					p.next()
+				}
+			}
+			p.expectOp(")")
+			e = c
+		default:
+			return e
+		}
+	}
+	return e
+}
+
+// ---- symbolic values and state ----
+
+type luaVal struct {
+	isNil string // Bool term
+	isB   string // Bool term: value is a boolean
+	b     string // Bool term (truth value when boolean)
+	num   string // Real term
+	str   string // Ref term
+}
+
+type luaState struct {
+	pc     []string
+	locals map[string]luaVal
+	has    map[int]string
+	num    map[int]string
+	str    map[int]string
+	ttl    map[int]string
+	done   bool
+}
+
+func (s *luaState) clone() *luaState {
+	n := &luaState{pc: append([]string(nil), s.pc...), locals: map[string]luaVal{}, has: map[int]string{}, num: map[int]string{}, str: map[int]string{}, ttl: map[int]string{}}
+	for k, v := range s.locals {
+		n.locals[k] = v
+	}
+	for k, v := range s.has {
+		n.has[k] = v
+	}
+	for k, v := range s.num {
+		n.num[k] = v
+	}
+	for k, v := range s.str {
+		n.str[k] = v
+	}
+	for k, v := range s.ttl {
+		n.ttl[k] = v
+	}
+	return n
+}
+
+type luaRun struct {
+	u      *Unit
+	lc     *LuaContract
+	entry  *luaState
+	errs   []string
+	paths  int
+	strLit map[string]string
+}
+
+func (r *luaRun) subset(f string, a ...any) {
+	r.errs = append(r.errs, fmt.Sprintf(f, a...))
+}
+
+func (r *luaRun) lit(s string) string {
+	if n, ok := r.strLit[s]; ok {
+		return n
+	}
+	n := r.u.strLit(s)
+	r.strLit[s] = n
+	return n
+}
+
+func luaNum(t string) luaVal {
+	return luaVal{isNil: "false", isB: "false", b: "true", num: t, str: ""}
+}
+
+func (r *luaRun) truthy(v luaVal) string {
+	// nil and false are falsy
+	return and(not(v.isNil), or(not(v.isB), v.b))
+}
+
+func (r *luaRun) strOf(v luaVal) string {
+	if v.str != "" {
+		return v.str
+	}
+	f := r.u.declareFun("num2str", []Sort{SReal}, SRef)
+	return app(f, v.num)
+}
+
+func (r *luaRun) numOf(v luaVal) string {
+	if v.num != "" {
+		return v.num
+	}
+	f := r.u.declareFun("str2num", []Sort{SRef}, SReal)
+	return app(f, v.str)
+}
+
+func (r *luaRun) keyIndex(e *luaExpr) (int, bool) {
+	if e.op == "index" && e.val == "KEYS" && e.args[0].op == "num" {
+		n, err := strconv.Atoi(e.args[0].val)
+		return n, err == nil
+	}
+	return 0, false
+}
+
+func (r *luaRun) emit(st *luaState, kind, goal, note string) {
+	tmp := &State{pc: st.pc}
+	r.u.emit(tmp, kind, goal, note)
+}
+
+func (r *luaRun) eval(st *luaState, e *luaExpr) luaVal {
+	u := r.u
+	switch e.op {
+	case "num":
+		t := e.val
+		if !strings.Contains(t, ".") {
+			t += ".0"
+		}
+		return luaNum(t)
+	case "str":
+		return luaVal{isNil: "false", isB: "false", b: "true", str: r.lit(e.val)}
+	case "nil":
+		return luaVal{isNil: "true", isB: "false", b: "false", num: "0.0", str: "nil"}
+	case "true", "false":
+		return luaVal{isNil: "false", isB: "true", b: e.op, num: "0.0", str: "nil"}
+	case "name":
+		if v, ok := st.locals[e.val]; ok {
+			return v
+		}
+		r.subset("unknown variable %s", e.val)
+		return luaNum("0.0")
+	case "index":
+		if e.val == "ARGV" && e.args[0].op == "num" {
+			i, _ := strconv.Atoi(e.args[0].val)
+			if i < 1 || i > r.lc.NArgs {
+				r.subset("ARGV[%d] outside the declared argument count", i)
+			}
+			return luaVal{isNil: "false", isB: "false", b: "true", num: fmt.Sprintf("argN_%d", i), str: fmt.Sprintf("argS_%d", i)}
+		}
+		r.subset("unsupported index expression %s[...]", e.val)
+		return luaNum("0.0")
+	case "un":
+		v := r.eval(st, e.args[0])
+		if e.val == "not" {
+			return luaVal{isNil: "false", isB: "true", b: not(r.truthy(v)), num: "0.0", str: "nil"}
+		}
+		return luaNum(app("-", r.numOf(v)))
+	case "bin":
+		switch e.val {
+		case "and", "or":
+			a := r.eval(st, e.args[0])
+			b := r.eval(st, e.args[1])
+			ta := r.truthy(a)
+			pick := func(x, y string) string {
+				if e.val == "and" {
+					return app("ite", ta, y, x)
+				}
+				return app("ite", ta, x, y)
+			}
+			return luaVal{isNil: pick(a.isNil, b.isNil), isB: pick(a.isB, b.isB), b: pick(a.b, b.b), num: pick(r.numOf(a), r.numOf(b)), str: pick(r.strOf(a), r.strOf(b))}
+		}
+		a := r.eval(st, e.args[0])
+		b := r.eval(st, e.args[1])
+		mkb := func(t string) luaVal { return luaVal{isNil: "false", isB: "true", b: t, num: "0.0", str: "nil"} }
+		switch e.val {
+		case "+", "-", "*":
+			return luaNum(app(e.val, r.numOf(a), r.numOf(b)))
+		case "/":
+			r.emit(st, "divzero@"+r.lc.Name, not(app("=", r.numOf(b), "0.0")), "division by zero (Lua yields inf/nan: outside the real model)")
+			return luaNum(app("/", r.numOf(a), r.numOf(b)))
+		case "<", "<=", ">", ">=":
+			return mkb(app(e.val, r.numOf(a), r.numOf(b)))
+		case "==", "~=":
+			var eq string
+			switch {
+			case e.args[0].op == "nil":
+				eq = b.isNil
+			case e.args[1].op == "nil":
+				eq = a.isNil
+			case a.str != "" && b.str != "" && a.num == "" || a.str != "" && b.str != "" && b.num == "":
+				// string comparison (a nil value has the distinguished identity nil)
+				eq = and(app("=", a.isNil, b.isNil), or(a.isNil, app("=", a.str, b.str)))
+			case a.str != "" && b.str != "":
+				// values with both readings (GET results / ARGV): compared as strings, as Lua does for Redis replies
+				eq = and(app("=", a.isNil, b.isNil), or(a.isNil, app("=", a.str, b.str)))
+			default:
+				eq = and(not(a.isNil), not(b.isNil), app("=", r.numOf(a), r.numOf(b)))
+			}
+			if e.val == "~=" {
+				eq = not(eq)
+			}
+			return mkb(eq)
+		}
+		r.subset("unsupported operator %s", e.val)
+		return luaNum("0.0")
+	case "call":
+		switch e.val {
+		case "tonumber":
+			v := r.eval(st, e.args[0])
+			// tonumber(nil) = nil; numeric strings give their numeric reading
+			return luaVal{isNil: v.isNil, isB: "false", b: "true", num: r.numOf(v), str: ""}
+		case "math.max", "math.min":
+			a := r.numOf(r.eval(st, e.args[0]))
+			b := r.numOf(r.eval(st, e.args[1]))
+			f := "rmax"
+			if e.val == "math.min" {
+				f = "rmin"
+			}
+			return luaNum(app(f, a, b))
+		case "math.floor":
+			return luaNum(app("rfloor", r.numOf(r.eval(st, e.args[0]))))
+		case "math.ceil":
+			return luaNum(app("rceil", r.numOf(r.eval(st, e.args[0]))))
+		case "redis.call":
+			return r.redisCall(st, e)
+		}
+		r.subset("call of %s is outside the verified Lua subset", e.val)
+		return luaNum("0.0")
+	}
+	r.subset("unsupported expression")
+	_ = u
+	return luaNum("0.0")
+}
+
+func (r *luaRun) fresh(st *luaState, name string, s Sort) string { return r.u.fresh(name, s) }
+
+// redisCall applies the trusted command contracts to the abstract state.
+func (r *luaRun) redisCall(st *luaState, e *luaExpr) luaVal {
+	if len(e.args) < 2 || e.args[0].op != "str" {
+		r.subset("redis.call needs a literal command and a key")
+		return luaNum("0.0")
+	}
+	cmd := strings.ToUpper(e.args[0].val)
+	k, ok := r.keyIndex(e.args[1])
+	if !ok || k < 1 || k > r.lc.NKeys {
+		r.subset("redis.call %s: key must be KEYS[i] within the declared key count", cmd)
+		return luaNum("0.0")
+	}
+	setVal := func(v luaVal) {
+		st.has[k] = "true"
+		st.num[k] = r.numOf(v)
+		st.str[k] = r.strOf(v)
+	}
+	okV := luaVal{isNil: "false", isB: "false", b: "true", str: r.lit("OK")}
+	switch cmd {
+	case "GET":
+		return luaVal{isNil: not(st.has[k]), isB: "false", b: "true", num: st.num[k], str: app("ite", st.has[k], st.str[k], "nil")}
+	case "INCRBY":
+		d := r.numOf(r.eval(st, e.args[2]))
+		nv := app("+", app("ite", st.has[k], st.num[k], "0.0"), d)
+		st.ttl[k] = app("ite", st.has[k], st.ttl[k], "0.0")
+		st.has[k] = "true"
+		st.num[k] = nv
+		f := r.u.declareFun("num2str", []Sort{SReal}, SRef)
+		st.str[k] = app(f, nv)
+		return luaNum(nv)
+	case "EXPIRE":
+		sec := r.numOf(r.eval(st, e.args[2]))
+		r.emit(st, "pre@EXPIRE", app(">", sec, "0.0"), "EXPIRE with a non-positive time deletes the key")
+		st.ttl[k] = app("ite", st.has[k], app("*", sec, "1000.0"), st.ttl[k])
+		return luaNum(app("ite", st.has[k], "1.0", "0.0"))
+	case "SETEX":
+		sec := r.numOf(r.eval(st, e.args[2]))
+		v := r.eval(st, e.args[3])
+		r.emit(st, "pre@SETEX", app(">", sec, "0.0"), "SETEX requires a positive expire time (Redis raises an error otherwise)")
+		setVal(v)
+		st.ttl[k] = app("*", sec, "1000.0")
+		return okV
+	case "SET":
+		v := r.eval(st, e.args[2])
+		nx := false
+		px := ""
+		for i := 3; i < len(e.args); i++ {
+			if e.args[i].op != "str" {
+				r.subset("SET: options must be literals")
+				continue
+			}
+			switch strings.ToUpper(e.args[i].val) {
+			case "NX":
+				nx = true
+			case "PX":
+				if i+1 < len(e.args) {
+					px = r.numOf(r.eval(st, e.args[i+1]))
+					i++
+				}
+			case "EX":
+				if i+1 < len(e.args) {
+					px = app("*", r.numOf(r.eval(st, e.args[i+1])), "1000.0")
+					i++
+				}
+			default:
+				r.subset("SET option %s not supported", e.args[i].val)
+			}
+		}
+		if px != "" {
+			r.emit(st, "pre@SET", app(">", px, "0.0"), "SET PX/EX requires a positive expire time")
+		}
+		newTTL := "0.0"
+		if px != "" {
+			newTTL = px
+		}
+		if nx {
+			did := not(st.has[k])
+			oh, on, os, ot := st.has[k], st.num[k], st.str[k], st.ttl[k]
+			st.has[k] = "true"
+			st.num[k] = app("ite", did, r.numOf(v), on)
+			st.str[k] = app("ite", did, r.strOf(v), os)
+			st.ttl[k] = app("ite", did, newTTL, ot)
+			_ = oh
+			// reply: OK or nil (go-redis maps the nil bulk reply to redis.Nil)
+			return luaVal{isNil: not(did), isB: "false", b: "true", str: app("ite", did, r.lit("OK"), "nil")}
+		}
+		setVal(v)
+		st.ttl[k] = newTTL
+		return okV
+	case "DEL":
+		was := st.has[k]
+		st.has[k] = "false"
+		st.ttl[k] = "0.0"
+		return luaNum(app("ite", was, "1.0", "0.0"))
+	}
+	r.subset("redis command %s is outside the trusted command set", cmd)
+	return luaNum("0.0")
+}
+
+func (r *luaRun) exec(st *luaState, stmts []*luaStmt, k func(*luaState)) {
+	if len(stmts) == 0 {
+		k(st)
+		return
+	}
+	s := stmts[0]
+	rest := stmts[1:]
+	switch s.kind {
+	case "local", "assign":
+		st.locals[s.name] = r.eval(st, s.expr)
+		r.exec(st, rest, k)
+	case "call":
+		r.eval(st, s.expr)
+		r.exec(st, rest, k)
+	case "return":
+		v := r.eval(st, s.expr)
+		r.finish(st, v)
+	case "if":
+		var rec func(st *luaState, i int)
+		rec = func(st *luaState, i int) {
+			if i >= len(s.conds) {
+				if s.els != nil {
+					r.exec(st, s.els, func(s2 *luaState) { r.exec(s2, rest, k) })
+				} else {
+					r.exec(st, rest, k)
+				}
+				return
+			}
+			c := r.truthy(r.eval(st, s.conds[i]))
+			r.paths++
+			if r.paths > 200 {
+				r.subset("path budget exceeded")
+				return
+			}
+			s2 := st.clone()
+			st.pc = append(st.pc, c)
+			s2.pc = append(s2.pc, not(c))
+			r.exec(st, s.blks[i], func(s3 *luaState) { r.exec(s3, rest, k) })
+			rec(s2, i+1)
+		}
+		rec(st, 0)
+	default:
+		r.subset("unsupported statement")
+	}
+}
+
+// ---- contract expressions (Go expression syntax) ----
+
+type luaSpecEv struct {
+	r      *luaRun
+	st     *luaState
+	old    *luaState
+	result *luaVal
+	lets   map[string]string
+	sorts  map[string]Sort
+}
+
+func (ev *luaSpecEv) intArg(e ast.Expr) (int, bool) {
+	bl, ok := e.(*ast.BasicLit)
+	if !ok {
+		return 0, false
+	}
+	n, err := strconv.Atoi(bl.Value)
+	return n, err == nil
+}
+
+func (ev *luaSpecEv) expr(e ast.Expr) (string, Sort) {
+	r := ev.r
+	bad := func(f string, a ...any) (string, Sort) {
+		r.u.eng.specError("lua " + r.lc.Name + ": " + fmt.Sprintf(f, a...))
+		return "false", SBool
+	}
+	switch x := e.(type) {
+	case *ast.ParenExpr:
+		return ev.expr(x.X)
+	case *ast.BasicLit:
+		switch x.Kind {
+		case token.INT:
+			return x.Value + ".0", SReal
+		case token.FLOAT:
+			return x.Value, SReal
+		case token.STRING:
+			s, _ := strconv.Unquote(x.Value)
+			return r.lit(s), SRef
+		}
+	case *ast.Ident:
+		switch x.Name {
+		case "true", "false":
+			return x.Name, SBool
+		case "nil":
+			return "nil", SRef
+		}
+		if t, ok := ev.lets[x.Name]; ok {
+			return t, ev.sorts[x.Name]
+		}
+		return bad("unknown name %s", x.Name)
+	case *ast.UnaryExpr:
+		t, s := ev.expr(x.X)
+		switch x.Op {
+		case token.NOT:
+			return not(t), SBool
+		case token.SUB:
+			return app("-", t), s
+		}
+	case *ast.BinaryExpr:
+		a, sa := ev.expr(x.X)
+		b, _ := ev.expr(x.Y)
+		switch x.Op {
+		case token.LAND:
+			return and(a, b), SBool
+		case token.LOR:
+			return or(a, b), SBool
+		case token.EQL:
+			return app("=", a, b), SBool
+		case token.NEQ:
+			return not(app("=", a, b)), SBool
+		case token.LSS, token.LEQ, token.GTR, token.GEQ:
+			return app(x.Op.String(), a, b), SBool
+		case token.ADD, token.SUB, token.MUL, token.QUO:
+			return app(x.Op.String(), a, b), sa
+		}
+	case *ast.CallExpr:
+		name := exprString(x.Fun)
+		arg := func(i int) string { t, _ := ev.expr(x.Args[i]); return t }
+		switch name {
+		case "old":
+			o := *ev
+			o.st = ev.old
+			return o.expr(x.Args[0])
+		case "implies":
+			return implies(arg(0), arg(1)), SBool
+		case "iff":
+			return app("=", arg(0), arg(1)), SBool
+		case "ite":
+			_, s := ev.expr(x.Args[1])
+			return app("ite", arg(0), arg(1), arg(2)), s
+		case "min":
+			return app("rmin", arg(0), arg(1)), SReal
+		case "max":
+			return app("rmax", arg(0), arg(1)), SReal
+		case "floor":
+			return app("rfloor", arg(0)), SReal
+		case "ceil":
+			return app("rceil", arg(0)), SReal
+		case "isint":
+			return app("=", arg(0), app("rfloor", arg(0))), SBool
+		case "has", "num", "str", "ttl":
+			i, ok := ev.intArg(x.Args[0])
+			if !ok || i < 1 || i > r.lc.NKeys {
+				return bad("%s needs a key index within the declared key count", name)
+			}
+			switch name {
+			case "has":
+				return ev.st.has[i], SBool
+			case "num":
+				return ev.st.num[i], SReal
+			case "str":
+				return ev.st.str[i], SRef
+			default:
+				return ev.st.ttl[i], SReal
+			}
+		case "argn", "args":
+			i, ok := ev.intArg(x.Args[0])
+			if !ok || i < 1 || i > r.lc.NArgs {
+				return bad("%s needs an argument index within the declared argument count", name)
+			}
+			if name == "argn" {
+				return fmt.Sprintf("argN_%d", i), SReal
+			}
+			return fmt.Sprintf("argS_%d", i), SRef
+		case "rnum", "rstr", "rnil", "rtrue":
+			if ev.result == nil {
+				return bad("%s outside ensures", name)
+			}
+			switch name {
+			case "rnum":
+				return r.numOf(*ev.result), SReal
+			case "rstr":
+				return r.strOf(*ev.result), SRef
+			case "rnil":
+				return ev.result.isNil, SBool
+			default:
+				return r.truthy(*ev.result), SBool
+			}
+		}
+		return bad("unknown function %s", name)
+	}
+	return bad("unsupported contract expression %s", exprString(e))
+}
+
+func (r *luaRun) finish(st *luaState, v luaVal) {
+	for i, e := range r.lc.Ensures {
+		if e.Expr == nil {
+			continue
+		}
+		ev := &luaSpecEv{r: r, st: st, old: r.entry, result: &v, lets: map[string]string{}, sorts: map[string]Sort{}}
+		r.bindLets(ev)
+		g, _ := ev.expr(e.Expr)
+		r.emit(st, fmt.Sprintf("post#%d", i), g, e.Text)
+	}
+}
+
+func (r *luaRun) bindLets(ev *luaSpecEv) {
+	// lets are evaluated in the pre-state
+	pre := &luaSpecEv{r: r, st: r.entry, old: r.entry, lets: ev.lets, sorts: ev.sorts}
+	for _, l := range r.lc.Lets {
+		id, ok := l.LHS.(*ast.Ident)
+		if !ok {
+			continue
+		}
+		t, s := pre.expr(l.RHS)
+		ev.lets[id.Name] = t
+		ev.sorts[id.Name] = s
+	}
+}
+
+func (e *Engine) runLua(prop string) ([]*Obligation, []string) {
+	var out []*Obligation
+	var names []string
+	for _, lc := range e.cs.Lua {
+		if !(prop == "" || hasProp(lc.Props, prop)) {
+			continue
+		}
+		rel, _ := filepath.Rel(e.repo, lc.Path)
+		name := filepath.ToSlash(rel)
+		lc.Name = name
+		names = append(names, name)
+		u := &Unit{eng: e, name: name, declared: map[string]bool{}, assumptions: map[string]bool{}, uncontracted: map[string]bool{},
+			strLits: map[string]string{}, oblCount: map[string]int{}, loopOrd: map[ast.Stmt]string{}, callOrd: map[*ast.CallExpr]string{},
+			litOrd: map[*ast.FuncLit]int{}, allocd: map[string]bool{}, reached: map[string]bool{}, maxPaths: 200, entryHeld: map[string]bool{}}
+		fail := func(kind, msg string) {
+			out = append(out, &Obligation{Name: kind + "/" + name, Func: name, Kind: kind, Property: lc.Props, Goal: "false", Status: "failed-nomodel", RawOut: msg, Note: lc.Src})
+		}
+		src, err := os.ReadFile(lc.Path)
+		if err != nil {
+			fail("target", "script named by the contract was not found: "+err.Error())
+			continue
+		}
+		toks, err := luaLex(string(src))
+		if err != nil {
+			fail("subset", err.Error())
+			continue
+		}
+		p := &luaParser{toks: toks}
+		prog := p.block()
+		if p.err != nil {
+			fail("subset", p.err.Error())
+			continue
+		}
+		r := &luaRun{u: u, lc: lc, strLit: map[string]string{}}
+		st := &luaState{locals: map[string]luaVal{}, has: map[int]string{}, num: map[int]string{}, str: map[int]string{}, ttl: map[int]string{}}
+		for i := 1; i <= lc.NKeys; i++ {
+			st.has[i] = u.declare(fmt.Sprintf("has_%d", i), SBool)
+			st.num[i] = u.declare(fmt.Sprintf("num_%d", i), SReal)
+			st.str[i] = u.declare(fmt.Sprintf("str_%d", i), SRef)
+			st.ttl[i] = u.declare(fmt.Sprintf("ttl_%d", i), SReal)
+			st.pc = append(st.pc, app(">=", st.ttl[i], "0.0"), not(app("=", st.str[i], "nil")))
+		}
+		for i := 1; i <= lc.NArgs; i++ {
+			n := u.declare(fmt.Sprintf("argN_%d", i), SReal)
+			s := u.declare(fmt.Sprintf("argS_%d", i), SRef)
+			st.pc = append(st.pc, not(app("=", s, "nil")))
+			if lc.IntArgs[i] {
+				st.pc = append(st.pc, app("=", n, app("rfloor", n)))
+			}
+		}
+		r.entry = st.clone()
+		ev := &luaSpecEv{r: r, st: st, old: r.entry, lets: map[string]string{}, sorts: map[string]Sort{}}
+		r.bindLets(ev)
+		for _, rq := range lc.Requires {
+			if rq.Expr == nil {
+				continue
+			}
+			g, _ := ev.expr(rq.Expr)
+			st.pc = append(st.pc, g)
+		}
+		r.entry.pc = append([]string(nil), st.pc...)
+		u.emitSat(&State{pc: st.pc}, "vacuity/pre", "script preconditions are satisfiable")
+		r.exec(st, prog, func(s2 *luaState) {
+			r.finish(s2, luaVal{isNil: "true", isB: "false", b: "false", num: "0.0", str: "nil"})
+		})
+		if len(r.errs) > 0 {
+			sort.Strings(r.errs)
+			fail("subset", strings.Join(r.errs, "\n"))
+		}
+		u.finalize()
+		for _, o := range u.obls {
+			o.Property = lc.Props
+		}
+		out = append(out, u.obls...)
+		e.luaTrusted = append(e.luaTrusted, "Redis command contracts (GET, SET [NX] [PX], SETEX, INCRBY, EXPIRE, DEL) over the abstract key state (has, num, str, ttl) — trusted",
+			"atomic-script rule: Redis runs a Lua script atomically, so what holds for one run from any state holds under every interleaving of clients (trusted)",
+			"Lua numbers are modelled as reals (doubles are exact for the integer ranges involved)")
+	}
+	_ = parser.ParseExpr
+	return out, names
+}
